@@ -274,24 +274,33 @@ class StoreDriver(object):
                     if not same_value(dict(rec.get_metadata()), pm):
                         mm('roundtrip', idx, pm, dict(rec.get_metadata()), 'metadata of the fetched recording')
                     if k == 'mutate':
-                        mutate_everything(rec)
-                        # a second fetch through the same cassette object and through a new one
-                        for rd in (reader, reader_factory()):
-                            rec2 = rd.get_recording(rid)
-                            ok = set(rec2.get_all_keys()) == set(data) and \
-                                all(same_value(rec2.get_data(kk), data[kk]) for kk in data) and \
-                                same_value(dict(rec2.get_metadata()), pm)
-                            if not ok:
-                                mm('aliasing', idx, (data, pm),
-                                   ({kk: rec2.get_data(kk) for kk in rec2.get_all_keys()}, dict(rec2.get_metadata())),
-                                   'a later fetch observes a mutation made through an earlier fetch')
-                        # reads of one fetched recording are fresh copies
-                        rec3 = reader.get_recording(rid)
-                        for kk in data:
-                            from .recbind import mutate_in_place
-                            mutate_in_place(rec3.get_data(kk))
-                            if not same_value(rec3.get_data(kk), data[kk]):
-                                mm('aliasing', idx, data[kk], rec3.get_data(kk), 'second read of key %r sees a mutation of the first' % kk)
+                        try:
+                            mutate_everything(rec)
+                        except Exception as ex:  # noqa
+                            mm('roundtrip', idx, 'a readable recording', repr(ex),
+                               'a key listed by the fetched recording cannot be read back from it')
+                            continue
+                        try:
+                            # a second fetch through the same cassette object and through a new one
+                            for rd in (reader, reader_factory()):
+                                rec2 = rd.get_recording(rid)
+                                ok = set(rec2.get_all_keys()) == set(data) and \
+                                    all(same_value(rec2.get_data(kk), data[kk]) for kk in data) and \
+                                    same_value(dict(rec2.get_metadata()), pm)
+                                if not ok:
+                                    mm('aliasing', idx, (data, pm),
+                                       ({kk: rec2.get_data(kk) for kk in rec2.get_all_keys()}, dict(rec2.get_metadata())),
+                                       'a later fetch observes a mutation made through an earlier fetch')
+                            # reads of one fetched recording are fresh copies
+                            rec3 = reader.get_recording(rid)
+                            for kk in data:
+                                from .recbind import mutate_in_place
+                                mutate_in_place(rec3.get_data(kk))
+                                if not same_value(rec3.get_data(kk), data[kk]):
+                                    mm('aliasing', idx, data[kk], rec3.get_data(kk), 'second read of key %r sees a mutation of the first' % kk)
+                        except Exception as ex:  # noqa
+                            mm('roundtrip', idx, 'a readable recording', repr(ex),
+                               'a recording fetched again cannot be read back completely')
                 elif k == 'resave':
                     rid = ids[e['id'] - 1]
                     try:
